@@ -339,6 +339,14 @@ def base_valid(skel, rankmode, ncpu, appmode):
                 s["rank"], s["nranks"] = nr - 1 - pi, nr       # rank order opposite to creation order
             elif rankmode == "fwd":
                 s["rank"], s["nranks"] = pi, nr
+            elif rankmode == "cyc":
+                # cyclic placement: in the first loom the process whose directory name sorts first does NOT hold the
+                # loom's lowest rank, so "minimum rank of the loom" and "rank of its first process" order the looms differently
+                li = looms.index(l)
+                mine = sorted([k for k in procs if k[0] == l], key=lambda k: "proc.%d" % k[1])
+                j = mine.index((l, p))
+                s["rank"], s["nranks"] = (((len(mine) - 1 - j) if li == 0 else j) * len(looms) + li), len(looms) * max(
+                    len([k for k in procs if k[0] == x]) for x in looms)
             elif rankmode in ("mixA", "mixB"):
                 # MIXED trace (legal, only a warning): the processes of ONE loom carry ranks, the other loom has none,
                 # so set_sort_criteria must keep sorting the looms by name ("only if ALL looms have ranks")
@@ -567,8 +575,10 @@ def run(chk):
     bases = []
     for si, skel in enumerate(shapes()):
         nlooms = len({l for (l, p, t) in skel})
-        for rankmode in ("none", "rev", "fwd", "mixA", "mixB"):
+        for rankmode in ("none", "rev", "fwd", "mixA", "mixB", "cyc"):
             if rankmode.startswith("mix") and nlooms < 2:
+                continue
+            if rankmode == "cyc" and (nlooms < 2 or len({(l, p) for (l, p, t) in skel}) < 3):
                 continue
             for ncpu in (2, 3):
                 for appmode in ("same", "distinct"):
